@@ -68,4 +68,3 @@ func Replay(res *HistResult, work string, w io.Writer) []Violation {
 	}
 	return r.Viol
 }
-
